@@ -556,6 +556,10 @@ M('C07', 'valid forms table C changed', MPS, "'C': (0.5, 0.5),", "'C': (0.5, 1.0
 
 # ---------------------------------------------------------------- C04
 PYXF = 'tenpy/linalg/_npc_helper.pyx'
+M('C04', 'tensordot sends block-less operands to the worker', NPC,
+  '    elif no_block or one_block:', '    elif one_block:', 'PAIR-precondition')
+M('C04', 'tensordot trivial cases as guard clause (equivalent)', NPC,
+  '    elif no_block or one_block:', '    elif one_block or no_block:', None, 'silent')
 M('C04', 'python make_valid aliases (original defect)', CH,
   'charges = np.array(charges, dtype=QTYPE)  # copy: never write into the argument',
   'charges = np.asarray(charges, dtype=QTYPE)', 'PAIR-mutation')
